@@ -64,6 +64,12 @@ func NewGzipResponseWriter(w http.ResponseWriter, contentTypes *regexp.Regexp) *
 }
 
 func (grw *GzipResponseWriter) WriteHeader(code int) {
+	if code >= 100 && code <= 199 && code != http.StatusSwitchingProtocols {
+		// informational response (e.g. 103 Early Hints): the header of the
+		// final response is not known yet, so the decision has to wait for it
+		grw.ResponseWriter.WriteHeader(code)
+		return
+	}
 	if grw.writer == nil {
 		if isCompressable(grw.Header(), grw.contentTypes) {
 			grw.Header().Del(headerContentLength)
